@@ -263,7 +263,8 @@ def body_wiring(paste, compensated, interlaced, second, poles, nmesh):
         for col in ('power',) + (('poles',) if 'poles' in res.colnames else ()):
             for x, y in zip(real_np.asarray(res[col]).ravel(), real_np.asarray(auto[col]).ravel()):
                 conds.append(z3.substitute(core._b(core.lift(x) == core.lift(y)), *sub))
-        c.prove(z3.And(conds), 'passing the same particles as the second field gives the auto power (cross = auto)', key='wiring:cross-auto')
+        for cd in conds:
+            c.prove(cd, 'passing the same particles as the second field gives the auto power (cross = auto)', key='wiring:cross-auto')
 
 
 def items(tier, seed):
